@@ -513,29 +513,25 @@ def orBits : List Nat → Nat → List Nat → Outcome (List Nat × Nat)
 def resize (data : List Nat) (n : Nat) : List Nat :=
   if n ≤ data.length then data.take n else data ++ List.replicate (n - data.length) 0
 
-/-- `append_bits_mut(self, tail)` (receiver consumed, `tail` borrowed) -/
-def appendBitsMut (h : Heap) (s : Handle) (tail : Handle) : Outcome (Heap × Handle) :=
-  let end_ := s.end_
-  let (h1, s1) := dataMut h s
-  let data0 := (h1.buf s1.buf).bytes
-  -- data.truncate(upper_bound_index(end))
+/-- `data.truncate(upper_bound_index(end)); if end % 8 != 0 { data[end / 8] &= !(0xffu8 >> (end % 8)) }` -/
+def truncMask (data0 : List Nat) (end_ : Nat) : Outcome (List Nat) :=
   let data1 := data0.take (upperBoundIndex end_)
-  -- if end % 8 != 0 { data[end / 8] &= !(0xffu8 >> (end % 8)) }
-  let masked : Outcome (List Nat) :=
-    if end_ % 8 ≠ 0 then
-      match data1[end_ / 8]? with
-      | none => .panic "index out of bounds"
-      | some d => .ok (data1.set (end_ / 8) (d &&& (255 - (255 >>> (end_ % 8)))))
-    else .ok data1
-  match masked with
+  if end_ % 8 ≠ 0 then
+    match data1[end_ / 8]? with
+    | none => .panic "index out of bounds"
+    | some d => .ok (data1.set (end_ / 8) (d &&& (255 - (255 >>> (end_ % 8)))))
+  else .ok data1
+
+/-- the byte-level body of `append_bits_mut` once the buffer is uniquely owned: new buffer contents and new end -/
+def appendCore (data0 : List Nat) (start end_ : Nat) (tv : View) : Outcome (List Nat × Nat) :=
+  match truncMask data0 end_ with
   | .panic e => .panic e
   | .err e => .err e
   | .ok data2 =>
-    let sv : View := ⟨data2, s1.start, s1.end_⟩
-    let tv := h1.view tail
+    let sv : View := ⟨data2, start, end_⟩
     if sv.isU8Slice && tv.isU8Slice then
       match tv.slice with
-      | .ok (some tb) => .ok (setBytes h1 s1 (data2 ++ tb), { s1 with end_ := s1.end_ + tv.len })
+      | .ok (some tb) => .ok (data2 ++ tb, end_ + tv.len)
       | .ok none => .panic "unwrap on None"
       | .panic e => .panic e
       | .err e => .err e
@@ -549,7 +545,15 @@ def appendBitsMut (h : Heap) (s : Handle) (tail : Handle) : Outcome (Heap × Han
         match orBits data3 end_ tbits with
         | .panic e => .panic e
         | .err e => .err e
-        | .ok (data4, pos) => .ok (setBytes h1 s1 data4, { s1 with end_ := pos })
+        | .ok (data4, pos) => .ok (data4, pos)
+
+/-- `append_bits_mut(self, tail)` (receiver consumed, `tail` borrowed) -/
+def appendBitsMut (h : Heap) (s : Handle) (tail : Handle) : Outcome (Heap × Handle) :=
+  let (h1, s1) := dataMut h s
+  match appendCore (h1.buf s1.buf).bytes s1.start s1.end_ (h1.view tail) with
+  | .panic e => .panic e
+  | .err e => .err e
+  | .ok (data, e) => .ok (setBytes h1 s1 data, { s1 with end_ := e })
 
 /-- `append(self, tail)` -/
 def append (h : Heap) (s : Handle) (tail : Handle) : Outcome (Heap × Handle) :=
